@@ -176,6 +176,26 @@ def evalShape (sqlMode : Bool) (shape : String) (a b : Agg.Str) : Eval Float := 
   | "dbl" => match numOf (lookup a row) with
     | some x => some (fin (arith (· * ·) (· * ·) x (.i 2)))
     | none => none
+  -- a decimal literal or a nested path in the argument text: the NULL-aware engine computes it, in float64; a missing or
+  -- NULL operand gives NULL
+  | "half" => match lookup a row with
+    | none => some .null
+    | some .null => some .null
+    | ca => match numOf ca with
+      | some x => some (.flt (x.toF * 0.5))
+      | none => none
+  | "sesq" => match lookup a row with
+    | none => some .null
+    | some .null => some .null
+    | ca => match numOf ca with
+      | some x => some (.flt (x.toF * 1.5))
+      | none => none
+  | "pdbl" => match lookup a row with
+    | none => some .null
+    | some .null => some .null
+    | ca => match numOf ca with
+      | some x => some (.flt (x.toF * 2.0))
+      | none => none
   | "nilmul" => match lookup a row, lookup b row with
     | none, _ => some .null
     | _, none => some .null
